@@ -15,6 +15,9 @@ EXTENDS FieldAlg, TLC, FiniteSets
 VARIABLES mKind, mA, mB
 
 FP   == 0..(P - 1)
+Bug == IF "VERIF_BUG" \in DOMAIN IOEnv THEN IOEnv.VERIF_BUG ELSE "none"      \* a deliberately wrong design, selected by the orchestrator for non-vacuity runs
+InvUT(a) == IF Bug = "inv_exponent" THEN ModPow(a, P - 3, P) ELSE InvAlg(a)           \* (bug: a^(p-3))
+WideUT(a, k) == IF Bug = "wide_drop_top" THEN WideReduceAlg(a % Pow2(2 * k), k) ELSE WideReduceAlg(a, k)   \* (bug: the top part of a wide string ignored)
 C2   == CHOOSE r \in FP : (r * r) % P = 1         \* Z = -1 (non-square since p = 3 mod 4), c2 = sqrt(-Z) = sqrt(1)
 ZZ   == P - 1
 
@@ -29,7 +32,7 @@ PairInv == mKind = "pair" =>
   /\ FAdd(FSub(mA, mB), mB) = mA
   /\ FAdd(mA, FNeg(mA)) = 0
   /\ FSqr(mA) = FMul(mA, mA)
-  /\ (mA # 0 => FMul(mA, FInv(mA)) = 1) /\ FInv(0) = 0 /\ InvAlg(mA) = FInv(mA)
+  /\ (mA # 0 => FMul(mA, FInv(mA)) = 1) /\ FInv(0) = 0 /\ InvUT(mA) = FInv(mA)
   /\ (FIsSquare(mA) <=> HasRoot(mA))                                         \* Euler's criterion is the declarative notion
   /\ FIsOdd(mA) = (mA % 2 = 1)
   /\ FPow2k(mA, 1) = FSqr(mA) /\ FPow2k(mA, 3) = FSqr(FSqr(FSqr(mA)))
@@ -47,7 +50,7 @@ PairInv == mKind = "pair" =>
 
 WideInv == mKind = "wide" =>
   /\ FWideReduce(mA) = mA % P
-  /\ WideReduceAlg(mA, 6 * W) = mA % P          \* split at 3/4 of the element width, as 192 of 256 bits
+  /\ WideUT(mA, 6 * W) = mA % P          \* split at 3/4 of the element width, as 192 of 256 bits
   /\ (mA < TwoW => ReduceSaturated(mA, P) = FDecode(mA))
 
 ASSUME TwoW < 2 * P      \* one conditional subtraction suffices, as for the real p
